@@ -12,7 +12,9 @@ import (
 	"go/parser"
 	"go/printer"
 	"go/token"
+	"os"
 	"path/filepath"
+	"sort"
 	"strings"
 )
 
@@ -38,11 +40,17 @@ var skelTargets = []skelTarget{
 	{"plugins/file/plugin.go", "", "Handler4", "recLock", []string{"StaticRecords"}, 1, "file.Handler4", false, ""},
 	{"plugins/file/plugin.go", "", "Handler6", "recLock", []string{"StaticRecords"}, 1, "file.Handler6", false, ""},
 	{"plugins/file/plugin.go", "", "loadFromFile", "recLock", []string{"StaticRecords"}, 1, "file.loadFromFile", false, ""},
+	{"plugins/file/plugin.go", "", "setupFile", "recLock", []string{"StaticRecords"}, 0, "file.setupFile", false, ""},
+	{"plugins/file/plugin.go", "", "numRecords", "recLock", []string{"StaticRecords"}, 1, "file.numRecords", false, ""},
 	// the receive buffer: owned by the handling goroutine from the moment Serve hands it over until
 	// it is put back into the pool — exactly once, and never touched afterwards
 	{"server/handle.go", "listener4", "HandleMsg4", "bufpool", []string{"buf"}, 0, "server.HandleMsg4", true, "bufpool.Put(&buf)"},
 	{"server/handle.go", "listener6", "HandleMsg6", "bufpool", []string{"buf"}, 0, "server.HandleMsg6", true, "bufpool.Put(&buf)"},
 }
+
+// methods that touch the guarded state themselves and rely on the caller holding the lock: a call
+// to one of them counts as a write access at the call site
+var lockedHelpers = map[string]bool{"range.Handler4:saveIPAddress": true}
 
 var mutating = map[string]bool{"Set": true, "Clear": true, "SetTo": true, "Flip": true, "ClearAll": true, "SetAll": true, "Exec": true}
 
@@ -52,6 +60,7 @@ type skelTr struct {
 	recvVar string
 	unsup   string
 	ctx     []string // enclosing "loop" / "switch" statements
+	spawned []*ast.FuncLit // bodies of `go func() {...}()` statements: analysed as functions of their own
 }
 
 func (s *skelTr) str(e ast.Node) string {
@@ -106,6 +115,9 @@ func (s *skelTr) exprEvents(e ast.Node, write bool) []string {
 				case recv == s.recvVar:
 					for _, a := range x.Args {
 						walk(a, false)
+					}
+					if lockedHelpers[s.t.label+":"+sel.Sel.Name] {
+						out = append(out, "KAcc true "+q("call "+recv+"."+sel.Sel.Name))
 					}
 					out = append(out, "KCall "+q(sel.Sel.Name))
 					return
@@ -348,6 +360,13 @@ func (s *skelTr) stmt(st ast.Stmt) string {
 		}
 		s.unsup = "continue outside a loop in " + s.t.label
 		return "KSeq []"
+	case *ast.GoStmt:
+		if fl, ok := x.Call.Fun.(*ast.FuncLit); ok && len(x.Call.Args) == 0 {
+			s.spawned = append(s.spawned, fl)
+			return "KSeq []"
+		}
+		s.unsup = "go statement that is not a literal without arguments in " + s.t.label
+		return "KSeq []"
 	case *ast.EmptyStmt:
 		return "KSeq []"
 	case *ast.LabeledStmt:
@@ -398,8 +417,123 @@ func genSkeleton(repo string) (string, string) {
 		}
 		id := fmt.Sprintf("sk_%d", i)
 		names = append(names, id)
-		fmt.Fprintf(&sb, "(* %s, %s *)\nDefinition %s : fskel :=\n  {| fs_name := %s; fs_lock := %s; fs_rank := %d; fs_owned := %v; fs_body :=\n    %s |}.\n\n", t.label, t.file, id, q(t.label), q(t.file+":"+t.mutex), t.rank, t.owned, body)
+		emit := func(id, label, body string) {
+			fmt.Fprintf(&sb, "(* %s, %s *)\nDefinition %s : fskel :=\n  {| fs_name := %s; fs_lock := %s; fs_rank := %d; fs_owned := %v; fs_body :=\n    %s |}.\n\n", label, t.file, id, q(label), q(t.file+":"+t.mutex), t.rank, t.owned, body)
+		}
+		emit(id, t.label, body)
+		for k := 0; k < len(tr.spawned); k++ { // goroutines started by the function (and by those)
+			tr.ctx = nil
+			gb := tr.stmt(tr.spawned[k].Body)
+			if tr.unsup != "" {
+				return "", "unsupported: " + tr.unsup
+			}
+			gid := fmt.Sprintf("sk_%d_go%d", i, k+1)
+			names = append(names, gid)
+			emit(gid, fmt.Sprintf("%s.go%d", t.label, k+1), gb)
+		}
 	}
+	census, reason := genCensus(repo)
+	if reason != "" {
+		return "", reason
+	}
+	sb.WriteString(census)
 	fmt.Fprintf(&sb, "Definition all_skeletons : list fskel := [%s].\n", strings.Join(names, "; "))
 	return sb.String(), ""
+}
+
+// genCensus lists every function (of the non-test files of the packages that own lock-protected
+// state) whose body mentions a guarded location: the Coq side requires each of them to be an
+// analysed function or one of the hand-listed exemptions (set-up code that runs before the
+// handler is published, helpers only called inside a critical section).
+func genCensus(repo string) (string, string) {
+	type pk struct {
+		dir    string
+		idents []string // plain identifiers / field names of guarded locations
+	}
+	pks := []pk{
+		{"plugins/allocators/bitmap", []string{"bitmap"}},
+		{"plugins/range", []string{"Recordsv4", "allocator", "leasedb"}},
+		{"plugins/prefix", []string{"Records", "allocator"}},
+		{"plugins/file", []string{"StaticRecords"}},
+		{"server", []string{"bufpool"}},
+	}
+	var items []string
+	for _, p := range pks {
+		fset := token.NewFileSet()
+		pkgs, err := parser.ParseDir(fset, filepath.Join(repo, p.dir), func(fi os.FileInfo) bool {
+			return !strings.HasSuffix(fi.Name(), "_test.go") && !strings.HasPrefix(fi.Name(), "verif_")
+		}, 0)
+		if err != nil {
+			return "", "census: " + err.Error()
+		}
+		var found []string
+		for _, pkg := range pkgs {
+			for _, f := range pkg.Files {
+				for _, d := range f.Decls {
+					fd, ok := d.(*ast.FuncDecl)
+					if !ok || fd.Body == nil {
+						continue
+					}
+					hit := false
+					ast.Inspect(fd.Body, func(n ast.Node) bool {
+						switch x := n.(type) {
+						case *ast.SelectorExpr:
+							for _, id := range p.idents {
+								if x.Sel.Name == id {
+									hit = true
+								}
+							}
+						case *ast.Ident:
+							for _, id := range p.idents {
+								if x.Name == id && x.Obj != nil && x.Obj.Kind == ast.Var {
+									if _, isField := x.Obj.Decl.(*ast.Field); !isField {
+										hit = true
+									}
+								}
+							}
+						case *ast.KeyValueExpr:
+							// a composite literal initialising the field: construction, before the value is shared
+							if id, ok := x.Key.(*ast.Ident); ok {
+								for _, g := range p.idents {
+									if id.Name == g {
+										ast.Inspect(x.Value, func(ast.Node) bool { return true })
+										return false
+									}
+								}
+							}
+						}
+						return true
+					})
+					if hit {
+						name, rt := fd.Name.Name, ""
+						if fd.Recv != nil && len(fd.Recv.List) == 1 {
+							switch r := fd.Recv.List[0].Type.(type) {
+							case *ast.StarExpr:
+								if id, ok := r.X.(*ast.Ident); ok {
+									rt = id.Name
+								}
+							case *ast.Ident:
+								rt = r.Name
+							}
+						}
+						label := p.dir + ":" + name
+						if rt != "" {
+							label = p.dir + ":" + rt + "." + name
+						}
+						for _, t := range skelTargets { // an analysed function goes by its skeleton's name
+							if filepath.Dir(t.file) == p.dir && t.recv == rt && t.name == name {
+								label = t.label
+							}
+						}
+						found = append(found, label)
+					}
+				}
+			}
+		}
+		sort.Strings(found)
+		for _, f := range found {
+			items = append(items, q(f))
+		}
+	}
+	return "(* every function mentioning a guarded location *)\nDefinition census : list string :=\n  [" + strings.Join(items, ";\n   ") + "].\n\n", ""
 }
